@@ -108,18 +108,38 @@ NullOnUse(st, hs) ==
 \* With tracking off (C15) nothing is recorded: the result is a fresh leaf (no creator, no parents), operands
 \* keep their gradients, and - constant-ness not being inferred from a graph - a float result is non-constant
 \* unless the `constant` keyword says otherwise.
-MkResult(st, s, sh, cells, os) ==
+\* lay : index map of the result into its own fresh buffer (identity = C order); cells are given in LOGICAL order
+MkResultL(st, s, sh, cells, os, lay) ==
+  LET n == Len(cells)
+      memcells == IF lay = Iota(n) THEN cells
+                  ELSE LET inv == [c \in 1..n |-> CHOOSE p \in 1..n : lay[p] = c] IN TLCEval([c \in 1..n |-> cells[inv[c]]])
+  IN
   IF st.track THEN
     LET const == ResConst(st, os, Kw(s, "kw", <<>>))
         st0 == [NullOnUse(st, OpHandles(os)) EXCEPT !.kf = IF OpHandles(os) \cap st.pend # {} THEN @ \cup {"F-C09-1"} ELSE @]
-        st1 == NewBuf(st0, cells, const)
+        st1 == NewBuf(st0, memcells, const)
         st2 == NewNodeB(st1, OpNodes(st, os), const, TRUE, Len(st1.mem))
-    IN PutH(st2, s.h, MkH("t", Len(st1.mem), Iota(Len(cells)), sh, const, Len(st2.N), 0, 0))
+    IN PutH(st2, s.h, MkH("t", Len(st1.mem), lay, sh, const, Len(st2.N), 0, 0))
   ELSE
     LET const == Kw(Kw(s, "kw", <<>>), "constant", "none") = "true"
-        st1 == NewBuf(st, [i \in 1..Len(cells) |-> DC(cells[i].v)], const)
+        st1 == NewBuf(st, [i \in 1..n |-> DC(memcells[i].v)], const)
         st2 == NewNodeB(st1, <<>>, const, FALSE, Len(st1.mem))
-    IN PutH(st2, s.h, MkH("t", Len(st1.mem), Iota(Len(cells)), sh, const, Len(st2.N), 0, 0))
+    IN PutH(st2, s.h, MkH("t", Len(st1.mem), lay, sh, const, Len(st2.N), 0, 0))
+MkResult(st, s, sh, cells, os) == MkResultL(st, s, sh, cells, os, Iota(Len(cells)))
+
+\* memory layout NumPy gives the output of an elementwise operation on these operands ("K" order, lib/Arr)
+ElementwiseLayout(st, os, sh) ==
+  LET n == Len(sh)
+      arrs == SelectIdx(Len(os), LAMBDA i : Len(OpSh(st, os[i])) > 0 /\ Size(OpSh(st, os[i])) > 1)
+      \* a tensor operand's strides follow from its index map; an inline array operand is C-contiguous
+      opst == [k \in 1..Len(arrs) |->
+                 LET o == os[arrs[k]] IN
+                 IF IsH(o) THEN AlignedStrides(st.H[o.h].imap, st.H[o.h].sh, n)
+                 ELSE AlignedStrides(Iota(Size(o.arr.sh)), o.arr.sh, n)]
+  IN IF n < 2 \/ Size(sh) < 2 \/ Len(arrs) = 0 THEN Iota(Size(sh))
+     ELSE LET perm == KOrderPerm(n, opst)
+              ost == KOrderStrides(sh, perm)
+          IN [p \in 1..Size(sh) |-> LET oi == Unravel(p, sh) IN 1 + SeqSum([a \in 1..n |-> oi[a] * ost[a]])]
 
 \* result of a view operation on tensor handle a: same buffer, gathered index map
 MkViewUntracked(st, s, a, sh, gth) ==      \* shares the memory, but no base / creator / registration
@@ -217,13 +237,14 @@ StructIsView(f, s, src, newimap, newsh) ==
 ApplyOp(st, s) ==
   LET f == s.f os == s.a kw == Kw(s, "kw", <<>>) IN
   CASE Bin(f) ->
-        MkResult(st, s, BShape(OpSh(st, os[1]), OpSh(st, os[2])), BinCells(st, f, os[1], os[2]), os)
+        LET sh == BShape(OpSh(st, os[1]), OpSh(st, os[2])) IN
+        MkResultL(st, s, sh, BinCells(st, f, os[1], os[2]), os, ElementwiseLayout(st, os, sh))
     [] f = "power" ->   \* integer exponent given as parameter s.p  (x ** p)
         LET c == OpCells(st, os[1]) IN
-        MkResult(st, s, OpSh(st, os[1]), [i \in 1..Len(c) |-> DPowInt(c[i], s.p)], os)
+        MkResultL(st, s, OpSh(st, os[1]), [i \in 1..Len(c) |-> DPowInt(c[i], s.p)], os, ElementwiseLayout(st, os, OpSh(st, os[1])))
     [] Un(f) ->
         LET c == OpCells(st, os[1]) IN
-        MkResult(st, s, OpSh(st, os[1]), [i \in 1..Len(c) |-> UnK(f, c[i])], os)
+        MkResultL(st, s, OpSh(st, os[1]), [i \in 1..Len(c) |-> UnK(f, c[i])], os, ElementwiseLayout(st, os, OpSh(st, os[1])))
     [] Red(f) ->
         LET sh == OpSh(st, os[1]) c == OpCells(st, os[1]) ax == RedAxes(kw, sh)
             grp == ReduceGroups(sh, ax)
